@@ -1,6 +1,6 @@
 (* PaddingProcProofs.v -- C19: the process-level model (replaceable default scheme, client, sessions) *)
 From Coq Require Import List NArith ZArith Lia Bool Arith.
-From AnyTLS Require Import Bytes Cmd Generated GeneratedFacts Frame Text Padding BytesFacts FrameProofs PaddingProofs.
+From AnyTLS Require Import Bytes Cmd Generated FactsCore FactsPadding Frame Text Padding BytesFacts FrameProofs PaddingProofs.
 Import ListNotations.
 Open Scope N_scope.
 
